@@ -14,7 +14,7 @@ CLAIMED = {
    technique="deterministic simulation: seeded operation histories across simulated threads, checked against a map model + allocation ledger"),
  "C02": dict(engine="seqsim", level="exploration", design="DESIGN.md §6 C02",
    text="C01-style histories with scan, scan_from and scan_range (both directions, halt after 1-6 visits or at any position up to past the end) interleaved; bounds are stored keys, their neighbours, keys leaving the tree at every depth, 0 and max, and for byte-string keys also bounds of other lengths than the stored keys (proper prefixes, extensions); "
-        "caller-side bound buffers are placed in both address orders; the visited (key, value) sequence must equal the model's range exactly and the visitor must not be called after returning true.",
+        "caller-side bound buffers are exact-size heap blocks placed in both address orders, and prefix-related bounds also as two views into one buffer; the visited (key, value) sequence must equal the model's range exactly and the visitor must not be called after returning true.",
    note="Byte-string key sets are restricted to representable ones (D1 is owned by C01). " + SC,
    technique="deterministic simulation: seeded histories with scans, exact comparison with the ordered-map model"),
  "C03": dict(engine="olcsim", level="exploration", design="DESIGN.md §6 C03",
@@ -44,7 +44,8 @@ CLAIMED = {
  "C07": dict(engine="locksim", level="exploration", design="DESIGN.md §6 C07",
    text="Seeded search over interleavings of 2-3 threads on one real unodb::optimistic_lock guarding three protected fields; every lock-word and protected-field access is a scheduling point; "
         "recorded call/return stamps are checked against a lock monitor (writer exclusion, validated sections never provably overlap a write-locked period and see only completed writers' "
-        "values, upgrades not after another writer, obsolete final).",
+        "values, upgrades not after another writer, obsolete final); sections move-assigned between objects as the tree's descent loops do; in assertion builds the count of open read sections must be zero at the end. "
+        "A separate full-speed probe (-O2 build, hooks off) keeps a section open across 2^30 (thorough: up to 2^33) complete write cycles and requires its check and upgrade to fail (width of the version arithmetic).",
    note="Assumes the hook placement in optimistic_lock.hpp covers every access of the lock word and of in_critical_section fields. " + SC,
    technique="deterministic simulation: seeded scheduler over parked OS threads + lock monitor over the recorded history"),
  "C08": dict(engine="seqsim", level="fault_enumeration", design="DESIGN.md §6 C08",
